@@ -343,6 +343,9 @@ func mgrRun(pre, adds string, tape *hx.Tape) []string {
 		if s == "" || s == "-" {
 			continue
 		}
+		// "id!" = the key is added and then deleted again: its id stays used
+		del := strings.HasSuffix(s, "!")
+		s = strings.TrimSuffix(s, "!")
 		p, _, _ := paramsOf("gcm:16", "T")
 		k, err := fixedKey(p, idOf(s), "pre")
 		if err != nil {
@@ -351,6 +354,10 @@ func mgrRun(pre, adds string, tape *hx.Tape) []string {
 		hx.WithTape(&hx.Tape{}, func() {
 			if _, err := km.AddKey(k); err != nil {
 				handleErr = err
+			} else if del {
+				if err := km.Delete(idOf(s)); err != nil {
+					handleErr = err
+				}
 			}
 		})
 	}
